@@ -148,6 +148,8 @@ Definition unphase_call_fixed (c : call) : call :=
   mkCall (option_map fix_gt (c_gt c)) false (strip (c_fields c)).
 Definition unphase_fixed (r : vrec) : vrec := mkRec (r_fixed r) (map unphase_call_fixed (r_calls r)).
 
+Definition is_some (a : allele) : bool := match a with Some _ => true | None => false end.
+
 (* Which calls make the current code raise (the three defect classes of finding F2) *)
 Definition crash_class (c : call) : option err :=
   match c_gt c with
@@ -155,7 +157,7 @@ Definition crash_class (c : call) : option err :=
   | Some [] => Some EIndex
   | Some [Some _] => Some EIndex                                   (* called haploid genotype *)
   | Some (Some _ :: Some _ :: t) =>
-      if forallb (fun a => match a with Some _ => true | None => false end) t then None
+      if forallb is_some t then None
       else Some EType                                              (* 0|1|. *)
   | Some _ => None
   end.
@@ -223,7 +225,7 @@ Definition phase_call (d : pdec) (c : call) : call :=
   mkCall (phase_gt d (c_gt c))
          (match c_gt c with Some _ => d_phased d | None => c_phased c end)
          (set_tags (d_tags d) (c_fields c)).
-Fixpoint phase_calls (ds : list pdec) (cs : list call) : list call :=
+Fixpoint phase_calls (ds : list pdec) (cs : list call) {struct cs} : list call :=
   match cs with
   | [] => []
   | c :: t => match ds with
@@ -350,3 +352,18 @@ Definition l2_phase_rel (c : pcase) : bool := list_eqb rec_phase_relb (fst (fst 
 Definition l2_after_phase (c : pcase) : bool :=
   fres_eqb (unphase_file cur_rule (fst (fst c))) (fst (snd c), None)
   && fres_eqb (unphase_file cur_rule (snd (fst c))) (snd (snd c), None).
+
+(* ------------------------------------------------------------- histories of phase / unphase steps *)
+Inductive hop := HPhase (ds : list pdec) | HUnphase.
+Definition hstep (r : vrec) (o : hop) : vrec :=
+  match o with
+  | HPhase ds => phase_write ds r
+  | HUnphase => unphase_fixed r
+  end.
+(* the same history through the model of the current code (an exception ends it) *)
+Fixpoint hrun_cur (ops : list hop) (r : vrec) : res vrec :=
+  match ops with
+  | [] => Ok r
+  | HPhase ds :: t => hrun_cur t (phase_write ds r)
+  | HUnphase :: t => match unphase_rec cur_rule r with Ok r' => hrun_cur t r' | Err e => Err e end
+  end.
